@@ -264,7 +264,7 @@ func (c01) Run(c *Ctx, i int) CaseResult {
 		// network queryers, variables and data as JSON over an in-process transport
 		spec := in.Spec
 		spec.Parsed = nil
-		tc := NetTwinCase{Spec: &spec, Query: in.Query, OpName: in.OpName, Vars: in.Vars, StoreSeed: in.StoreSeed, OddIDs: in.OddIDs}
+		tc := NetTwinCase{Spec: &spec, Query: in.Query, OpName: in.OpName, Vars: in.Vars, StoreSeed: in.StoreSeed, OddIDs: in.OddIDs, Introspected: i%16 == 5}
 		if nf := RunNetTwin(tc); len(nf) > 0 {
 			res.Fails = append(res.Fails, nf...)
 		}
